@@ -20,7 +20,7 @@ func init() {
 			{"C01.scan-cursor", ruleC11Cursor, ""},
 			{"C01.kernel", ruleKernelShapes("(*pogreb.index).bucketIndex", "(*pogreb.bucket).del", "(*pogreb.slotWriter).insert", "(*pogreb.slotWriter).write", "(*pogreb.index).createOverflowBucket", "(*pogreb.bucketIterator).next", "(*pogreb.index).newBucketIterator", "(pogreb.slot).kvSize", "(*pogreb.datalog).readKey", "(*pogreb.datalog).readKeyValue"), ""},
 		},
-		Explanation: "Decides structural necessary conditions of map semantics of the hash index, for all key sets and hash layouts at once: (chain-exit) no lookup/insert/delete/scan/compaction walk of a bucket chain can end before end-of-chain, an error or a key/record match; (match-equal) a key callback reports a match only behind bytes.Equal(sought key, key stored in the log for that slot); (count, overwrite-flag) index.numKeys moves +1 exactly on insertion of a new key and -1 exactly on a removal, after the bucket write; (split) a split updates the addressing state before redistributing, publishes numBuckets after both writes, frees old overflow buckets after the walk; (addressing) every walk starts at bucketIndex(hash of the key) and Put stores the slot with that hash and the location the log append returned. NOT decided: equality with a reference map for all histories, the redistribution arithmetic itself, the hash function.",
+		Explanation: "Decides structural necessary conditions of map semantics of the hash index, for all key sets and hash layouts at once: (chain-exit) no lookup/insert/delete/scan/compaction walk of a bucket chain can end before end-of-chain, an error or a key/record match; (match-equal) a key callback reports a match only behind bytes.Equal(sought key, key stored in the log for that slot); (count, overwrite-flag) index.numKeys moves +1 exactly on insertion of a new key and -1 exactly on a removal, after the bucket write; (split) a split updates the addressing state before redistributing, publishes numBuckets after both writes, frees old overflow buckets after the walk; (addressing) every walk starts at bucketIndex(hash of the key) and Put stores the slot with that hash and the location the log append returned. (chain-links) bucket.next is written only by decoding and by linking a bucket createOverflowBucket just handed out, and overflow buckets are put on the free list only under split, so no chain is cut or re-linked while it holds keys; NOT decided: equality with a reference map for all histories, the redistribution arithmetic itself, the hash function.",
 		Assumptions: commonAssumptions,
 	})
 }
@@ -46,7 +46,7 @@ func init() {
 			{"C09.errs", ruleErrs, ""},
 			{"C09.meta-symmetry", ruleC02MetaSymmetry, ""},
 		},
-		Explanation: "Decides, on the call-string-cloned interprocedural graph of DB.Close: (sync-before-close) every fs.File.Close of a written file that lies on a success path of DB.Close is preceded on every path by File.Sync on the same file (same access path through the call string) with no write in between; (commit-last) writeMeta, datalog.close, index.close precede LockFile.Unlock on every path, every success return passes Unlock, nothing touches the file system after Unlock, only DB.Close calls Unlock, and datalog.close skips only nil segments. NOT decided: that every power-loss image after Close reopens to the closed contents.",
+		Explanation: "Decides, on the call-string-cloned interprocedural graph of DB.Close: (sync-before-close) every fs.File.Close of a written file that lies on a success path of DB.Close is preceded on every path by File.Sync on the same file (same access path through the call string) with no write in between; (commit-last) writeMeta, datalog.close, index.close precede LockFile.Unlock on every path, every success return passes Unlock, nothing touches the file system after Unlock, only DB.Close calls Unlock, and datalog.close skips only nil segments. (sync-before-close, extended) DB.mu is not released between a file's last Sync and its Close; NOT decided: that every power-loss image after Close reopens to the closed contents.",
 		Assumptions: commonAssumptions,
 	})
 }
@@ -62,7 +62,7 @@ func init() {
 			{"C15.thresholds", ruleC15Thresholds, ""},
 			{"C15.close-all-segments", ruleCloseOrder, ""},
 		},
-		Explanation: "Decides: (name-families) by abstract evaluation of every file-name expression reaching FileSystem.OpenFile/Remove/Rename through the call string, every removed name family is one the package creates, and every per-segment family that is created (segment file, its .pmt side file) is removed by removeSegment; recovery backups are removed; (curseg-live) every I/O through datalog.curSeg is behind the test '!curSeg.meta.Full' or a swapSegment, so a current segment that compaction sealed, closed and removed is never used; (remove-order) a segment is forgotten and closed before its files are unlinked, compact() returns nil only after removeSegment, Compact counts a segment only after compact() returned nil. NOT decided: boundedness of directory size, descriptors and mappings over time.",
+		Explanation: "Decides: (name-families) by abstract evaluation of every file-name expression reaching FileSystem.OpenFile/Remove/Rename through the call string, every removed name family is one the package creates, and every per-segment family that is created (segment file, its .pmt side file) is removed by removeSegment; recovery backups are removed; (curseg-live) every I/O through datalog.curSeg is behind the test '!curSeg.meta.Full' or a swapSegment, so a current segment that compaction sealed, closed and removed is never used; (remove-order) a segment is forgotten and closed before its files are unlinked, compact() returns nil only after removeSegment, Compact counts a segment only after compact() returned nil. (seal-sites) segments are marked full only below writeRecord, Compact/compact and recover; (forget-unlink-atomic) a segment's slot is released and its files are unlinked in one exclusive section of DB.mu; NOT decided: boundedness of directory size, descriptors and mappings over time.",
 		Assumptions: commonAssumptions,
 	})
 	register("C04", &propDef{
@@ -107,7 +107,7 @@ func init() {
 			{"C07.copy-inside-lock", ruleC14CopyInsideLock, ""},
 			{"C07.no-retained-locations", ruleNoRetainedLocations, "primary"},
 		},
-		Explanation: "Decides only the critical-section structure linearizability needs, with a path-sensitive lockset analysis on the call-string-cloned interprocedural graph of every API entry: (guarded) every read/write of index, datalog, segment-meta and file-size state and every fs.File call on a shared index/segment file reachable from an entry is made with DB.mu held in the required mode; (one-section) Put, Delete, Get, GetAppend, Has, Count, Sync and one iterator refill never release DB.mu and take it again; (balanced) every entry returns with the lockset it was entered with. NOT decided: the existence of a linearization for every history.",
+		Explanation: "Decides only the critical-section structure linearizability needs, with a path-sensitive lockset analysis on the call-string-cloned interprocedural graph of every API entry: (guarded) every read/write of index, datalog, segment-meta and file-size state and every fs.File call on a shared index/segment file reachable from an entry is made with DB.mu held in the required mode; (one-section) Put, Delete, Get, GetAppend, Has, Count, Sync and one iterator refill never release DB.mu and take it again; (balanced) every entry returns with the lockset it was entered with. (no-retained-locations) no long-lived state can hold an index slot across critical sections; every store into memory reachable from the handle holds DB.mu exclusively; NOT decided: the existence of a linearization for every history.",
 		Assumptions: append([]string{"guarded-state table of DESIGN.md 2.2 (fields of index, datalog, segmentMeta, file.size; I/O on index and segment files)"}, commonAssumptions...),
 	})
 	register("C10", &propDef{
@@ -122,7 +122,7 @@ func init() {
 			{"C10.no-alias-out", ruleC14NoAliasOut, ""},
 			{"C10.no-retained-locations", ruleNoRetainedLocations, "primary"},
 		},
-		Explanation: "Decides the lock discipline race- and deadlock-freedom need: (guarded) as C07; (balanced) no lock leaked or double-released on any path, error paths included; (lock-order) the held->acquired graph over maintenanceMu, ItemIterator.mu, DB.mu is acyclic, no re-entrant acquisition, no WaitGroup.Wait/channel operation while a lock is held; (goroutine) the only goroutine is registered with the WaitGroup before it starts, defers Done, leaves its loop on ctx.Done(), and Close cancels it, waits, then locks; (fs-calls) directory operations on the database's FileSystem are made under DB.mu; (fs-readers-pure) File methods documented as thread-safe (Slice, ReadAt, Stat) do not write receiver state. NOT decided: absence of panics/faults in general (bounds checks are not provable here), races on state outside the tables, progress.",
+		Explanation: "Decides the lock discipline race- and deadlock-freedom need: (guarded) as C07; (balanced) no lock leaked or double-released on any path, error paths included; (lock-order) the held->acquired graph over maintenanceMu, ItemIterator.mu, DB.mu is acyclic, no re-entrant acquisition, no WaitGroup.Wait/channel operation while a lock is held; (goroutine) the only goroutine is registered with the WaitGroup before it starts, defers Done, leaves its loop on ctx.Done(), and Close cancels it, waits, then locks; (fs-calls) directory operations on the database's FileSystem are made under DB.mu; (fs-readers-pure) File methods documented as thread-safe (Slice, ReadAt, Stat) do not write receiver state. (no-alias-out, no-retained-locations) no File.Slice memory and no index slot is kept across critical sections; every store into memory reachable from the handle holds DB.mu exclusively; NOT decided: absence of panics/faults in general (bounds checks are not provable here), races on state outside the tables, progress.",
 		Assumptions: commonAssumptions,
 	})
 }
@@ -136,7 +136,7 @@ func init() {
 			{"C14.copy-inside-lock", ruleC14CopyInsideLock, ""},
 			{"C14.fresh-results", ruleC14Fresh, ""},
 		},
-		Explanation: "Decides, within a whole-package field-based value-flow model (slicing, phis, tuples, struct fields, closure cells, parameters/returns through the call graph with VTA-resolved callbacks; append/copy semantics modelled; package pogreb uses neither unsafe nor reflection): (no-alias-out) memory returned by fs.File.Slice never reaches a result of an exported function and is never stored in any struct field; (no-retain-in) byte-slice parameters of exported functions are never stored in a struct field or package variable, encodeRecord returns a fresh buffer, fs Write/WriteAt implementations do not keep their buffer; (copy-inside-lock) every read of Slice memory (cloneBytes, append, copy, bytes.Equal) happens with DB.mu held on every path from every API entry. What is assumed is the flow model, not a sample of histories.",
+		Explanation: "Decides, within a whole-package field-based value-flow model (slicing, phis, tuples, struct fields, closure cells, parameters/returns through the call graph with VTA-resolved callbacks; append/copy semantics modelled; package pogreb uses neither unsafe nor reflection): (no-alias-out) memory returned by fs.File.Slice never reaches a result of an exported function and is never stored in any struct field; (no-retain-in) byte-slice parameters of exported functions are never stored in a struct field or package variable, encodeRecord returns a fresh buffer, fs Write/WriteAt implementations do not keep their buffer; (copy-inside-lock) every read of Slice memory (cloneBytes, append, copy, bytes.Equal) happens with DB.mu held on every path from every API entry. What is assumed is the flow model, not a sample of histories. (returned-owned) per allocation site, a slice that can reach an API result reaches no field of a long-lived struct, no package variable and no external call that may keep it (reviewed exception: the iterator's queue of cloned items); (no-retain-in, extended) a caller's slice, or the address of the variable holding it, is handed outside the module only to functions known to read it.",
 		Assumptions: append([]string{"value-flow model: no aliasing through third-party code; append copies byte elements; copy/bytes.Equal/hashing only consume"}, commonAssumptions...),
 	})
 }
@@ -160,7 +160,7 @@ func init() {
 			{"C05.stop-on-error", ruleC05StopOnError, ""},
 			{"C05.replay-meta", ruleC04ReplayMeta, ""},
 		},
-		Explanation: "Decides the invariants that make per-record compaction safe under interleaved writers, over all paths: the source is sealed under the exclusive lock before it is read, the log never appends to a sealed segment and swapSegment never installs one; a record is judged live on (hash, segment, offset), copied and the slot repointed to exactly the location the copy returned, only after a successful copy, all inside sections of DB.mu held exclusively (guarded); the source disappears only after the iterator reported a clean end of segment; a segment with delete records is compacted only together with all older ones, oldest first; the compaction walk of a bucket chain cannot end early. NOT decided: equality of contents before/during/after compaction for all schedules.",
+		Explanation: "Decides the invariants that make per-record compaction safe under interleaved writers, over all paths: the source is sealed under the exclusive lock before it is read, the log never appends to a sealed segment and swapSegment never installs one; a record is judged live on (hash, segment, offset), copied and the slot repointed to exactly the location the copy returned, only after a successful copy, all inside sections of DB.mu held exclusively (guarded); the source disappears only after the iterator reported a clean end of segment; a segment with delete records is compacted only together with all older ones, oldest first; the compaction walk of a bucket chain cannot end early. (no-retained-locations) no state reachable from *DB, *ItemIterator or a package variable can hold an index slot across critical sections; (guarded, extended) every store into memory reachable from the handle holds DB.mu exclusively; (older-first, extended) every pick passed the 'holds delete records' test and the picked order reaches the loop unchanged; NOT decided: equality of contents before/during/after compaction for all schedules.",
 		Assumptions: commonAssumptions,
 	})
 	register("C03", &propDef{
@@ -181,7 +181,7 @@ func init() {
 			{"C03.stop-on-error", ruleC05StopOnError, ""},
 			{"C03.replay-meta", ruleC04ReplayMeta, ""},
 		},
-		Explanation: "Decides the structural crash protocol over all paths: the lock file brackets every mutation of a session (taken first in Open, released last and only by a completed Close); on the recovery branch the non-segment files are moved aside before index and log are opened, recovery replays segments in ascending sequence order, sequence ids only grow; a record reaches the log in one WriteAt of the whole encoded record; Put appends to the log before touching the index and Delete writes the delete record inside the index removal; compaction unlinks a source only after a clean end of segment, repoints a slot only after the copy was written, and drops delete records only together with all older segments. NOT decided: the contents recovered from each crash image; sector-tearing atomicity (relies on the checksum, C08).",
+		Explanation: "Decides the structural crash protocol over all paths: the lock file brackets every mutation of a session (taken first in Open, released last and only by a completed Close); on the recovery branch the non-segment files are moved aside before index and log are opened, recovery replays segments in ascending sequence order, sequence ids only grow; a record reaches the log in one WriteAt of the whole encoded record; Put appends to the log before touching the index and Delete writes the delete record inside the index removal; compaction unlinks a source only after a clean end of segment, repoints a slot only after the copy was written, and drops delete records only together with all older segments. (forget-unlink-atomic) a segment's slot is released and its files unlinked in one exclusive section of DB.mu; (open-order, extended) goroutines start only after recovery finished, the lock and its 'already existed' flag come from the same CreateLockFile call; NOT decided: the contents recovered from each crash image; sector-tearing atomicity (relies on the checksum, C08).",
 		Assumptions: commonAssumptions,
 	})
 	register("C11", &propDef{
@@ -195,7 +195,7 @@ func init() {
 			{"C11.no-retained-locations", ruleNoRetainedLocations, "primary"},
 			{"C11.kernel", ruleKernelShapes("(*pogreb.bucketIterator).next", "(*pogreb.index).newBucketIterator", "(*pogreb.datalog).readKeyValue", "(*pogreb.index).bucketIndex"), ""},
 		},
-		Explanation: "Decides: the scan walk of a bucket chain cannot end before the end of the chain; the scan position advances by exactly one bucket after a successful fetch of that bucket and is compared with index.numBuckets re-read on every iteration; ErrIterationDone only at the live bound with an empty queue; queued pairs are (copies of) results #0/#1 of readKeyValue for the visited slot; a whole chain is drained inside one shared section of DB.mu with ItemIterator.mu held; a split appends exactly one bucket, updates addressing before redistribution and publishes numBuckets last. NOT decided: exactly-once on every quiescent state; at-least-once under every interleaving.",
+		Explanation: "Decides: the scan walk of a bucket chain cannot end before the end of the chain; the scan position advances by exactly one bucket after a successful fetch of that bucket and is compared with index.numBuckets re-read on every iteration; ErrIterationDone only at the live bound with an empty queue; queued pairs are (copies of) results #0/#1 of readKeyValue for the visited slot; a whole chain is drained inside one shared section of DB.mu with ItemIterator.mu held; a split appends exactly one bucket, updates addressing before redistribution and publishes numBuckets last. (no-retained-locations) the iterator cannot keep index slots between Next calls; (fs-readers-pure) File.Slice/ReadAt implementations do not write receiver state; NOT decided: exactly-once on every quiescent state; at-least-once under every interleaving.",
 		Assumptions: commonAssumptions,
 	})
 	register("C12", &propDef{
@@ -231,13 +231,14 @@ func init() {
 			{"C18.names", ruleC18Names, ""},
 			{"C18.gob", ruleC18Gob, ""},
 			{"C18.name-families", ruleC15NameFamilies, ""},
+			{"C18.hash-absorption", ruleHashAbsorption, ""},
 			{"C18.key-limits", ruleC16Consts, ""},
 			{"C18.single-write", ruleC03SingleWrite, ""},
 			{"C18.size-mirror", ruleC04SizeMirror, ""},
 			{"C18.record-validity", ruleC08Gates, ""},
 			{"C18.addressing", ruleKernelShapes("(*pogreb.index).bucketIndex", "(*pogreb.bucketIterator).next", "(*pogreb.index).newBucketIterator", "pogreb.encodedRecordSize", "(pogreb.slot).kvSize", "(*pogreb.datalog).readKey", "(*pogreb.datalog).readKeyValue"), ""},
 		},
-		Explanation: "Decides that the writer-side and reader-side tables of the current code equal the frozen tables of the documented/pinned format v2: header (signature bytes, version 2 LE @8, 512 bytes, written into every new file and checked on every existing one), bucket (31 slots x 16 bytes: hash u32@0, segmentID u16@4, keySize u16@6, valueSize u32@8, offset u32@12, LE; overflow pointer u64 LE @496; bucket i at 512+512*i), record layout (as C08), file names (%05d-%d.psg and the legacy form, .pmt, main.pix, overflow.pix, index.pmt, db.pmt, lock, .bac), gob metadata field names and types, MurmurHash3 constants. Layouts are extracted from the SSA of the marshal/unmarshal functions by an abstract interpreter for slice positions, not matched textually. NOT decided: opening a golden corpus (dynamic); gob wire compatibility beyond field names/types; bucket-addressing arithmetic.",
+		Explanation: "Decides that the writer-side and reader-side tables of the current code equal the frozen tables of the documented/pinned format v2: header (signature bytes, version 2 LE @8, 512 bytes, written into every new file and checked on every existing one), bucket (31 slots x 16 bytes: hash u32@0, segmentID u16@4, keySize u16@6, valueSize u32@8, offset u32@12, LE; overflow pointer u64 LE @496; bucket i at 512+512*i), record layout (as C08), file names (%05d-%d.psg and the legacy form, .pmt, main.pix, overflow.pix, index.pmt, db.pmt, lock, .bac), gob metadata field names and types, MurmurHash3 constants. Layouts are extracted from the SSA of the marshal/unmarshal functions by an abstract interpreter for slice positions, not matched textually. (hash-absorption) the key hash absorbs its input front to back, each word little-endian, and its cursor advances by the bytes absorbed - the structural part of 'the same hash as the pinned version' (the mixing arithmetic and constants are not decided); NOT decided: opening a golden corpus (dynamic); gob wire compatibility beyond field names/types; bucket-addressing arithmetic.",
 		Assumptions: commonAssumptions,
 	})
 }
@@ -292,7 +293,7 @@ func init() {
 			{"C17.fs-readers-pure", ruleFSReadersPure, ""},
 			{"C17.no-alias-out", ruleC14NoAliasOut, ""},
 		},
-		Explanation: "Decides only sibling agreement of the fs.File implementations on the points the database relies on: every length-changing method of the mapped and the in-memory file maintains its logical size (Truncate sets it to its argument, shrinking included) and the mapped file re-establishes its mapping on every success path; Slice indexes the backing memory only when end <= logical size and returns io.EOF otherwise; a file opened larger than the initial mapping is mapped whole; the mapping is PROT_READ and never stored through; thread-safe readers do not write receiver state; package pogreb never inspects the dynamic type of its file system and never keeps memory returned by Slice (which differs between implementations: private copy / shared buffer / mapping). Equality of results and segment bytes across file systems for all programs is a relational run-time property and is NOT decided.",
+		Explanation: "Decides only sibling agreement of the fs.File implementations on the points the database relies on: every length-changing method of the mapped and the in-memory file maintains its logical size (Truncate sets it to its argument, shrinking included) and the mapped file re-establishes its mapping on every success path; Slice indexes the backing memory only when end <= logical size and returns io.EOF otherwise; a file opened larger than the initial mapping is mapped whole; the mapping is PROT_READ and never stored through; thread-safe readers do not write receiver state; package pogreb never inspects the dynamic type of its file system and never keeps memory returned by Slice (which differs between implementations: private copy / shared buffer / mapping). Equality of results and segment bytes across file systems for all programs is a relational run-time property and is (direntry-info) the in-memory directory entry's Info() succeeds for files without an open handle, like lstat on the OS file systems; NOT decided.",
 		Assumptions: commonAssumptions,
 	})
 }
